@@ -3,13 +3,13 @@
 Structural necessary conditions of "longest match, earliest rule wins ties, unmatched input is an error", extracted from
 Cython/Plex/{Regexps,Machines,Transitions,DFA,Lexicons,Scanners}.py.  Rules live in sa/rules/pC50.py.
 """
-from ..rules import pC50
+from ..rules import pC50, sC50
 
 ID = 'C50'
 TECHNIQUE = ('table/constant agreement across the six Plex modules; path-sensitive must-precede dataflow for the token counter; '
              'finite-domain evaluation of pure guard/assignment fragments by a checker-owned AST evaluator (pC50.Mini: no repository code is imported or run by '
              'CPython; unknown operands fork, unsupported constructs give ANALYSIS-ERROR) for the priority pipeline, the backup round trip, '
-             'FastMachine.add_transitions, the input_state dispatch, the RE constructors\' nullable/match_nl and CodeRange; '
+             'FastMachine.add_transitions, the input_state dispatch, the token / end-of-file / error decision of scan_a_token, the RE constructors\' nullable/match_nl and CodeRange; '
              'one-letter-alphabet language computation for the Rep1/Opt/Rep construction schemata')
 DECIDES = (
     'SENT: maxint is one integer in Regexps/Machines/Transitions, above every character code and inside its .pxd C type; LOWEST_PRIORITY (also as seen by DFA) '
@@ -33,9 +33,14 @@ DECIDES = (
     'through RawNewline.  '
     'DFA: only epsilon-closed sets become DFA states; epsilon moves are not copied as transitions while special and character events are; link_to and '
     'get_epsilon use the same falsy key; the closure helper is reflexive and recursive.  '
-    'INPUT: from the state set by Scanner.__init__, the input_state dispatch feeds BOL x EOL \\n BOL y EOL EOF \'\' \'\' for the text "x\\ny"<eof>.')
+    'INPUT: from the state set by Scanner.__init__, the input_state dispatch feeds BOL x EOL \\n BOL y EOL EOF \'\' \'\' for the text "x\\ny"<eof>.  '
+    'EOF: the decision table of Scanner.scan_a_token over (machine returned an action?) x (scan advanced past start_pos?) x (current symbol in EOF, EOL, BOL, \'\', None, '
+    'ordinary character, newline): an action is always returned as (text, action); without an action a clean end of file (_, None) is reported when nothing was consumed and the '
+    'symbol is EOF, and UnrecognizedInput is raised whenever the scan advanced or the symbol is an ordinary character (points with nothing consumed and a pseudo-symbol other '
+    'than EOF are evaluated but not constrained).')
 NOT_DECIDED = ('language equivalence of the generated DFA with the regular expressions for all lexicons and inputs; chars_to_ranges / uppercase_range / lowercase_range '
                'arithmetic; the binary search inside TransitionMap.split and the loop bounds of add/add_set/iteritems; TransitionMap.iteritems\' else_set shortcut; '
+               'that run_machine_inlined leaves cur_pos advanced when it blocks without a backup (C50-EOF takes this from the scan loop as decided by C50-BACKUP/C50-INPUT); '
                'the buffer refill arithmetic (buf_index, discard) and cur_pos/cur_line/cur_line_start bookkeeping of the scan loop (only their save/restore/'
                'write-back is decided); StateMap key construction; over-statement of nullable/match_nl (harmless: it only adds BOL edges that can never fire) is '
                'deliberately not reported.  The DESIGN clause "strict > in set_action/highest_priority_action" is replaced by the evaluated pipeline: with unique '
@@ -84,7 +89,16 @@ MUTATIONS = [
     (P + 'Scanners.py', "input_state 2 branch: next state 3 -> 1 (BOL skipped)", 'C50-INPUT'),
     (P + 'Scanners.py', 'input_state 4 branch: cur_char = EOF -> EOL', 'C50-INPUT (+C50-SYM)'),
     (P + 'Scanners.py', "__init__: self.cur_char = BOL -> ''", 'C50-INPUT'),
+    (P + 'Scanners.py', 'seed C50a: `if self.cur_pos == self.start_pos and self.cur_char is None or self.cur_char is EOF:` (precedence slip)', 'C50-EOF no-action:advanced:EOF'),
+    (P + 'Scanners.py', 'scan_a_token: `self.cur_pos == self.start_pos` -> `>=`', 'C50-EOF no-action:advanced:EOF'),
+    (P + 'Scanners.py', 'scan_a_token: position guard replaced by `if True:`', 'C50-EOF no-action:advanced:EOF'),
+    (P + 'Scanners.py', 'scan_a_token: `self.cur_char is EOF` -> `is EOL`', 'C50-EOF no-action:at-start:EOF'),
+    (P + 'Scanners.py', 'scan_a_token: final raise replaced by return ("", None)', "C50-EOF no-action:advanced:*"),
+    (P + 'Scanners.py', "scan_a_token: end-of-file test widened to `not self.cur_char or ... or self.cur_char == 'x'`", "C50-EOF no-action:at-start:'x'"),
+    (P + 'Scanners.py', 'scan_a_token: `if action is not None:` -> `if action is None:`', 'C50-EOF action:*'),
     # behaviour-preserving, must stay silent
+    (P + 'Scanners.py', 'scan_a_token: nested ifs flattened WITH parentheses: `pos equal and (char is None or char is EOF)`  [C50-EOF]', None),
+    (P + 'Scanners.py', 'scan_a_token: `consumed = cur_pos - start_pos; if consumed > 0 or self.cur_char not in (None, EOF): raise ...; return ("", None)`  [C50-EOF]', None),
     (P + 'Machines.py', 'set_action: > -> >=', None),
     (P + 'DFA.py', 'highest_priority_action: `priority > best_priority` -> `not priority <= best_priority`', None),
     (P + 'Regexps.py', 'AnyBut: ranges = [-maxint] + chars_to_ranges(s) + [maxint]', None),
@@ -100,4 +114,4 @@ MUTATIONS = [
 def run(ctx):
     px = pC50.Plex(ctx)
     return [pC50.rule_sentinel(px), pC50.rule_symbols(px), pC50.rule_priority(px), pC50.rule_backup(px), pC50.rule_split(px), pC50.rule_inf(px),
-            pC50.rule_nfa(px), pC50.rule_attrs(px), pC50.rule_closure(px), pC50.rule_protocol(px)]
+            pC50.rule_nfa(px), pC50.rule_attrs(px), pC50.rule_closure(px), pC50.rule_protocol(px), sC50.rule_eof(px)]
